@@ -258,3 +258,47 @@ func dedupedBefore(info *types.Info, body *ast.BlockStmt, v types.Object, at ast
 	})
 	return found
 }
+
+// ruleUnwrapEqTime: the index matchers receive the value decoded from an index key (a DateTime comes
+// back in UTC) and the filter value as written by the user (it keeps its offset). Comparing the two
+// unwrapped `any` values with == compares time.Time by representation (wall clock, location pointer),
+// not by instant — an `_in` on a DateTime component then finds nothing through the index while a scan
+// finds the row. So in package fetcher a function that compares two Unwrap() results with ==/!= also
+// compares times by instant ((time.Time).Equal), as the _eq/_ne matchers do.
+func ruleUnwrapEqTime(c *eng.Ctx) {
+	const rule = "UNWRAP-EQ-TIME"
+	n := 0
+	for _, fi := range c.P.FuncsIn("internal/db/fetcher") {
+		if fi.Decl.Body == nil || isTestFile(c.P, fi) {
+			continue
+		}
+		info := fi.Pkg.TypesInfo
+		isUnwrap := func(e ast.Expr) bool {
+			e = resolveLocalExpr(info, fi.Decl.Body, e)
+			call, ok := ast.Unparen(e).(*ast.CallExpr)
+			return ok && strings.HasSuffix(eng.CalleeName(info, call), "client.(NormalValue).Unwrap")
+		}
+		var cmps []*ast.BinaryExpr
+		ast.Inspect(fi.Decl.Body, func(m ast.Node) bool {
+			if be, ok := m.(*ast.BinaryExpr); ok && (be.Op == token.EQL || be.Op == token.NEQ) && isUnwrap(be.X) && isUnwrap(be.Y) {
+				cmps = append(cmps, be)
+			}
+			return true
+		})
+		if len(cmps) == 0 {
+			continue
+		}
+		byInstant := false
+		for _, cs := range eng.Calls(info, fi.Decl.Body) {
+			if cs.Name == "time.(Time).Equal" {
+				byInstant = true
+			}
+		}
+		for i, be := range cmps {
+			n++
+			c.Check(byInstant, rule, fmt.Sprintf("%s:unwrap==unwrap#%d:times-by-instant", shortFn(fi), i+1), be.Pos(), "times are compared by instant before the generic comparison",
+				shortFn(fi)+" compares two unwrapped values with "+be.Op.String()+" and has no time.Time.Equal case: a DateTime decoded from an index key (UTC) never equals the same instant written with another offset, so the filter finds the row by scan but not through the index")
+		}
+	}
+	c.Floor(rule, n, 1)
+}
